@@ -86,9 +86,27 @@ func cmp(want, got []absEv) string {
 func convCheck(s *smf.SMF, src []refsmf.Event) (sig, what string) {
 	wantMeta, wantCh, endTick, hadEOT := oracle(src)
 	var dest smf.SMF
+	before := sp.FromTrack(s.Tracks[0])
 	c := engine.Catch(func() { dest = s.ConvertToSMF1() })
 	if c.Panicked {
 		return c.Sig, "ConvertToSMF1 panicked: " + c.Value
+	}
+	// the source must survive the conversion (it may be converted, written or read again)
+	if len(s.Tracks) != 1 || refsmf.FirstDiff(before, sp.FromTrack(s.Tracks[0])) != "" || s.Format() != 0 {
+		return "convert:source-modified", "the source file was changed by converting it"
+	}
+	var dest2 smf.SMF
+	c = engine.Catch(func() { dest2 = s.ConvertToSMF1() })
+	if c.Panicked {
+		return c.Sig + ":second-conversion", "converting the same file a second time panicked: " + c.Value
+	}
+	if len(dest2.Tracks) != len(dest.Tracks) {
+		return "convert:second-conversion-differs", fmt.Sprintf("second conversion of the same file has %d tracks, the first %d", len(dest2.Tracks), len(dest.Tracks))
+	}
+	for i := range dest.Tracks {
+		if refsmf.FirstDiff(sp.FromTrack(dest.Tracks[i]), sp.FromTrack(dest2.Tracks[i])) != "" {
+			return "convert:second-conversion-differs", fmt.Sprintf("track %d differs between the first and the second conversion of the same file", i)
+		}
 	}
 	if dest.Format() != 1 {
 		return "convert:format", fmt.Sprintf("result has format %d", dest.Format())
@@ -188,6 +206,8 @@ var kindPatterns = map[string]func(i int) int{
 	"ch15-ch3-ch0": func(i int) int { return 3 - i%3 },
 	"meta-sysex":  func(i int) int { return (i % 2) * 4 },
 	"16-channels": func(i int) int { return 5 + (i*7)%16 },
+	"ch0-ch1":     func(i int) int { return 5 + i%2 },
+	"ch14-heavy-ch15": func(i int) int { if i%10 == 9 { return 5 + 15 }; return 5 + 14 },
 }
 
 var deltaPatterns = map[string]func(i int) uint32{
@@ -226,7 +246,12 @@ func dense() {
 	sortStrings(kps)
 	sortStrings(dps)
 	maxN := ctx.Pick(40, 120)
+	var ns []int
 	for n := 1; n <= maxN; n++ {
+		ns = append(ns, n)
+	}
+	ns = append(ns, 128, 129, 130, 257, 300, 600) // more than 128 / 256 events on one channel
+	for _, n := range ns {
 		for _, kp := range kps {
 			for _, dp := range dps {
 				for _, cl := range []int{0, 1, 2} {
